@@ -225,6 +225,27 @@ heap held before: the theorems show they are irrelevant) -/
 def mrun {α} (sem : Sem α) (p : Program) (kinds : Nat → Kind) (m0 : Mem α) (n0 : Nat := 0) : MState α :=
   mrunFrom sem ⟨init kinds n0, m0⟩ p
 
+/-- the state after `k+1` consecutive calls of the same wrapper with the same arguments: every call starts from the
+memory and the allocator state its predecessor left behind (whatever the earlier calls allocated is still there) -/
+def nthCall {α} (sem : Sem α) (p : Program) (kinds : Nat → Kind) (m0 : Mem α) : Nat → MState α
+  | 0 => mrun sem p kinds m0 0
+  | k + 1 =>
+    let r := nthCall sem p kinds m0 k
+    mrun sem p kinds r.mem (0 + r.st.next)
+
+/-- the kernels named by a body -/
+def kernelsOf (p : Program) : List String :=
+  p.filterMap fun s => match s with | .kernel n _ => some n | _ => none
+
+/-- "marking" contents semantics run by the driver: contents are naturals, conversions keep them, a kernel or an
+in-place write adds one to what it stores: a buffer whose content differs from its initial one has been stored to -/
+def markSem : Sem Nat := ⟨fun _ v => v, fun _ => 0, fun v => v + 1, fun _ vs => vs.map (· + 1)⟩
+
+/-- caller buffers (below `n`) whose contents differ after the call under the marking semantics -/
+def markedCallers (p : Program) (kinds : Nat → Kind) (n : Nat) : List Nat :=
+  let r := mrun markSem p kinds (fun _ => 0)
+  (List.range n).filter fun i => r.mem (.caller i) != 0
+
 /-! ### the wrappers, statement by statement (file:line of the kernel call in the comment)
 
 Conventions: local `i` < 10 is the caller's `i`-th buffer until reassigned (`x = f(x)` rebinds local
